@@ -26,6 +26,7 @@ func vxBool(name string) bool
 func vxChoice(name string, n int) int
 func vxConcrete(v int) int
 func vxConcreteStr(s string) string
+func vxShape(s string, structural string) string
 func vxAssume(c bool)
 func vxAssert(c bool, id string)
 func vxKnown(c bool, id string)
@@ -51,6 +52,7 @@ func vxMapOrderOff()
 func vxMapOrderReverse(b bool)
 func vxSetEnv(k, v string)
 func vxTraceMode(on bool)
+func vxTraceStatSeq(seq string)
 func vxTraceStatFork(on bool)
 func vxWalkExtra(path string)
 func vxClockSymbolic(on bool)
@@ -58,6 +60,7 @@ func vxCmdFree(writes, exit bool)
 func vxKillAt(k int)
 func vxOps() int
 func vxFSPut(path string, kind int, id int)
+func vxFSMkdirAll(path string)
 func vxFSPutData(path string, data string)
 func vxFSPutLines(path string, lines []string)
 func vxFSKind(path string) int
